@@ -16,6 +16,12 @@ recomputed from the current contents (`expected`: a value, never `KeyError`; `St
 * `strict = true` only: `TestSuiteMutation.mutate` drops no empty test while its local `changed` is unset
   (known finding; `C12_full_cex`).
 
+Fitness values are exact non-negative floats in units of `2^-60` (whole numbers, quarters and values of a few
+`2^-60`, i.e. below every absolute tolerance); the verdict that a fitness query leaves in the is-covered dict is
+`math.isclose(v, 0.0)` with the default (purely relative) tolerance = `v == 0` (`fitness_query_infers_exact_verdict`).
+Crossover is both `SinglePointRelativeCrossOver` (`xoverTc`, `xoverSuite`) and the direct
+`cross_over(other, position1, position2)` (`crossTc`, `crossSuite`: every pair of positions, empty tails, empty suites).
+
 Code versions (`Ver`): `Ver.repo` = /repo with proposed_fixes/C12-*.diff (what the driver runs),
 `Ver.fixed` = additionally the empty-test repair, `Ver.orig` = the unrepaired code (only in `_cex`).
 -/
@@ -79,6 +85,27 @@ theorem suite_run_is_current (S : Sem Content) (s : Suite) (hs : ∀ t ∈ s.tes
   obtain ⟨c, ch, r, ca⟩ := t
   cases ch <;> cases r <;> simp_all [runMember, TcGood]
 
+/-- `_compute_fitness` also fills the is-covered dict: the verdict it infers from the value (`math.isclose(v, 0.0)`,
+default tolerances) is the verdict `compute_is_covered` returns — for every value, however small; so
+`get_is_covered` does not depend on whether a fitness query came first -/
+theorem fitness_query_infers_exact_verdict (S : Sem R) (hS : S.Consistent) (c : Cache) (f : Func) (r : R) :
+    lookup f (c.store S .fit f r).isC = some (S.isCov f r) ∧ lookup f (c.store S .isCov f r).isC = some (S.isCov f r) := by
+  simp [Cache.store, lookup_upsert_val, isCloseZero_eq, hS f r]
+
+/-- why the tolerance has to stay relative: with any absolute tolerance `tol > 0` (`math.isclose(v, 0.0,
+abs_tol=tol)`) a non-zero fitness is declared covered -/
+theorem abs_tol_verdict_cex (tol : Nat) (h : 0 < tol) : ∃ v, v ≠ 0 ∧ isCloseZeroAbs tol v = true :=
+  ⟨1, by decide, by simp [isCloseZeroAbs]; omega⟩
+
+/-- `splice_test_suite_chromosomes` flags the parent for every pair of positions and every other parent — also
+when the tail `other[position2:]` is empty and the parent is only truncated -/
+theorem suite_splice_always_flags (s : Suite) (o : List Tc) (p1 p2 : Nat) :
+    (s.splice o p1 p2).changed = true ∧ (s.splice o p1 p2).tests = s.tests.take p1 ++ o.drop p2 := ⟨rfl, rfl⟩
+
+/-- … and it has to: an empty tail (`position2 = size(other)`) with `position1 < size(parent)` changes the tests -/
+example : ((Suite.splice ⟨[Tc.new 1 [], Tc.new 2 []], false, {}⟩ [Tc.new 3 []] 1 1).tests.map (·.content)) = [1] := by
+  decide
+
 /-! ## decidability of the history predicates (for the concrete examples and counterexamples) -/
 
 theorem outOk_iff (S : Sems) (w : World) (op : Op) (out : Out) :
@@ -114,7 +141,8 @@ def changeTo (c : Content) : MutEff := ⟨none, none, some ⟨true, c⟩, none, 
 def insertOnBackup (c : Content) : MutEff := ⟨none, none, none, none, false, ⟨true, c⟩⟩
 
 /-- a non-trivial admissible history: two test cases, a suite with two members, mutation with and without
-flag, crossover, clone, functions added late, queries in different orders on chromosomes and members -/
+flag, crossover (relative and direct, with an empty tail / position 0 / the suite with itself), clone, functions
+added late, queries in different orders on chromosomes and members -/
 def sampleHistory : List Op :=
   [.newTc 1 [2], .newTc 5 [], .newSuite, .addTest 0 0, .addTest 0 1, .addFit (.su 0) 1, .addCov (.su 0) 3,
    .query (.su 0) (.fitnessFor 1), .query (.mem 0 0) (.isCovered 2), .query (.su 0) .coverage,
@@ -122,11 +150,23 @@ def sampleHistory : List Op :=
    .mutateTc 0 (insertOnBackup 9), .query (.tc 0) (.fitnessFor 2), .query (.tc 0) .coverage,
    .cloneTc 0 2, .xoverTc 0 1 (some 11) none, .query (.tc 2) .fitness, .query (.tc 0) .fitness,
    .cloneSuite 0 1, .xoverSuite 0 1 1 2, .addFit (.su 1) 4, .query (.su 1) (.fitnessFor 4), .query (.su 1) (.fitnessFor 1),
-   .mutateSuite 1 ⟨[none, none, none, none], []⟩, .query (.su 1) .fitness]
+   .mutateSuite 1 ⟨[none, none, none, none], []⟩, .query (.su 1) .fitness,
+   .crossSuite 0 1 1 9, .query (.su 0) (.fitnessFor 1), .query (.su 0) (.isCovered 1), .crossSuite 1 0 0 0,
+   .query (.su 1) .fitness, .crossSuite 1 1 2 2, .query (.su 1) (.isCovered 4), .crossTc 0 1 (some 13),
+   .query (.tc 0) (.fitnessFor 2), .query (.tc 0) (.isCovered 2), .crossTc 1 0 none, .query (.tc 1) .fitness]
 
 example : Admissible stdSems Ver.repo true {} sampleHistory := by decide
 example : Admissible stdSems Ver.fixed false {} sampleHistory := by decide
 example : AllOk stdSems Ver.repo {} sampleHistory := by decide
+
+/-- fitness values of one unit (`2^-60`, not zero): fitness first, then the verdict, and the other way round -/
+def tinyHistory : List Op :=
+  [.newTc 1 [1], .query (.tc 0) (.fitnessFor 1), .query (.tc 0) (.isCovered 1), .cloneTc 0 1, .invalidate (.tc 1),
+   .query (.tc 1) (.isCovered 1), .query (.tc 1) .fitness]
+
+example : (runOps stdSems Ver.repo {} tinyHistory).2 = [.unit, .val 4, .flag false, .unit, .unit, .flag false, .val 4] := by
+  decide
+example : Admissible stdSems Ver.repo true {} tinyHistory ∧ AllOk stdSems Ver.repo {} tinyHistory := by decide
 
 /-- known finding (unrepaired in /repo): a suite holding an already evaluated *empty* test; `mutate` drops
 it with `changed` unset, the next query returns the value of the old member list -/
@@ -170,7 +210,7 @@ example : AllOk stdSems Ver.repo {} ignoredInsertHistory := by decide
 value of an unregistered function — the following query for the registered function raises `KeyError` -/
 theorem unregistered_query_cex :
     (runOps stdSems Ver.fixed {} [.newTc 1 [2], .query (.tc 0) (.fitnessFor 3), .query (.tc 0) (.fitnessFor 2)]).2
-      = [.unit, .val 3, .err .key] := by
+      = [.unit, .val (3 * 2 ^ 58), .err .key] := by
   decide
 
 end PynguinModel.Cache
